@@ -84,12 +84,12 @@ class Interrupter:
 # scenario generation
 
 FAMILIES = ["literal", "iterable", "mapping", "union", "scalar", "newtype", "annotated", "model", "generic", "recursive",
-            "failing"]
-FAMILY_W = [6, 3, 2, 3, 1, 1, 2, 3, 3, 5, 1]
+            "failing", "payload", "time"]
+FAMILY_W = [6, 3, 2, 3, 1, 1, 2, 3, 3, 5, 1, 1, 1]
 C11_RECIPES = ["plain", "plain", "plain", "nm_camel", "nm_camel_shared", "nm_as_list", "nm_omit_default", "nm_extra_forbid",
                "nm_extra_collect", "chain_node_children", "chain_int_last", "chain_int_shared", "scoped_int",
                "scoped_node_value", "scoped_linked_head", "enum_by_name", "validator_inner", "dumper_int_str", "dumper_scoped",
-               "asis_m2", "unsupported_fix", "nm_snake_only", "chain_int_first", "nm_extra_forbid_all", "flag_names", "enum_by_name_all", "nm_scoped_upper", "nm_scoped_upper", "nm_scoped_node", "nm_maps", "nm_maps", "nm_saturator", "nm_paths"]
+               "asis_m2", "unsupported_fix", "nm_snake_only", "chain_int_first", "nm_extra_forbid_all", "flag_names", "enum_by_name_all", "nm_scoped_upper", "nm_scoped_upper", "nm_scoped_node", "nm_maps", "nm_maps", "nm_saturator", "nm_paths", "dt_format", "dt_timestamp"]
 REPLACE_OPTS = [{"strict_coercion": True}, {"strict_coercion": False}, {"debug_trail": "ALL"}, {"debug_trail": "FIRST"},
                 {"debug_trail": "DISABLE"}, {"hide_traceback": False}, {"strict_coercion": False, "debug_trail": "FIRST"}]
 CONV_CALL_RECIPES = ["link_b_c", "link_a_c", "coerce_int_str", "coerce_int_hash", "link_title", "const_factory", "link_b_cs",
@@ -242,6 +242,11 @@ def gen_c11(seed, cfg=None):  # noqa: C901, PLR0912, PLR0915
             op = {"op": "bind_late"}
         elif r < 0.26:
             op = {"op": "gc"}
+        elif r < 0.28:
+            # scale: the retort serves tens to a thousand other types in between (its caches and the normalisation
+            # cache turn over completely)
+            hh = [x for x in morph if bases[x] == "Retort"] or morph
+            op = {"op": "bulk", "h": rng.choice(hh), "n": rng.choice([40, 150, 400, 1100]), "start": rng.choice([0, 0, 2000, 7000])}
         else:
             h = rng.choice(morph)
             t = pick_type()
@@ -563,6 +568,9 @@ def execute(scn, refs):  # noqa: C901, PLR0912, PLR0915
                     violations.append({"class": classify(exp, out), "op_index": i, "op": op, "expected": exp, "observed": out,
                                        "after_interrupt": bool(fired), "after_scramble": n_scrambles > 0,
                                        "after_exc_scramble": n_exc_scrambles > 0})
+            elif kind == "bulk" and out[2]:
+                violations.append({"class": "unexpected-exception", "op_index": i, "op": op, "expected": ["bulk", op["n"], []],
+                                   "observed": out})
             elif kind in ("replace", "extend") and out[0] != "handle":
                 violations.append({"class": "unexpected-exception", "op_index": i, "op": op, "expected": ["handle"],
                                    "observed": out})
